@@ -13,7 +13,8 @@ import (
 )
 
 // C11 — liquid vesting, pure level. Ops (shared with lean/HaqqModel/Driver/C11.lean):
-//   sub periods denom s | upcoming s e periods t | pastp s e periods t | rtail periods repl | shift start now periods
+//
+//	sub periods denom s | upcoming s e periods t | pastp s e periods t | rtail periods repl | shift start now periods
 func init() {
 	Register(&Property{
 		ID:   "C11",
